@@ -14,7 +14,7 @@ pub(crate) mod verif_step {
     /// region 0: everything except the two recorded finding regions; 1: KF1 only; 2: KF2 only.
     /// fit 0: any; 1: all bar lines fit into the terminal height; 2: some bar line does not fit.
     /// Returns a small code describing which interesting case was taken (for kani::cover! in the callers).
-    pub(crate) fn step(w: usize, h: usize, nl: usize, region: u8, fit: u8) -> u32 {
+    pub(crate) fn step(w: usize, h: usize, nl: usize, bottom: bool, region: u8, fit: u8) -> u32 {
         // cursor row before the step: leaves at least one log row above a frame of b <= h rows
         #[allow(non_snake_case)]
         let R0 = h;
@@ -50,11 +50,11 @@ pub(crate) mod verif_step {
         let pend = b == 0 && parked;
 
         // ---- the new frame: n lines, the first nt are text lines, the rest bar lines; symbolic lengths
-        let n: usize = kani::any();
-        kani::assume(n <= nl);
+        // the number of lines and the alignment are concrete per instance (a symbolic Vec length makes every loop of
+        // the code under test unwind to the harness bound); how many of them are text lines is symbolic
+        let n: usize = nl;
         let nt: usize = kani::any();
         kani::assume(nt <= n);
-        let bottom: bool = kani::any();
         let mut lens = [0usize; 3];
         let mut hs = [0usize; 3];
         let mut ds = DrawState::default();
